@@ -19,31 +19,27 @@ theorem fitsFastC_fst (cfg : Cfg) (mw left : Int) (stk : List Triple) :
 theorem fits_linear (cfg : Cfg) (mw left : Int) (stk : List Triple) :
     (fitsFastC cfg mw left stk).2 ≤ stkSize stk + 1 := by
   fun_induction fitsFastC cfg mw left stk
-  all_goals simp_all only [stkSize, Item.size, Doc.size, stkSize_pushAll]
+  all_goals simp_all only [stkSize, Item.size, stkSize_pushAll]
   all_goals first
     | omega
-    | (have := Doc.sizes_le_sizesF ‹List Doc›; omega)
-    | (rename_i ih; refine Nat.le_trans (Nat.succ_le_succ ih) ?_
-       refine Nat.le_trans (Nat.succ_le_succ (Nat.add_le_add_right (Nat.add_le_add_right (size_pick _ _ _ _) _) _)) ?_; omega)
-    | (rename_i ih; refine Nat.le_trans (Nat.succ_le_succ ih) ?_
-       refine Nat.le_trans (Nat.succ_le_succ (Nat.add_le_add_right (Nat.add_le_add_right (size_alignAt _ _) _) _)) ?_; omega)
-    | (rename_i ih; refine Nat.le_trans (Nat.succ_le_succ ih) ?_
-       refine Nat.le_trans (Nat.succ_le_succ (Nat.add_le_add_right (Nat.add_le_add_right (Cfg.size_evC _ _ _ _) _) _)) ?_; omega)
+    | (simp only [Doc.size] at *; omega)
+    | (have := Doc.sizes_le_sizesF ‹List Doc›; simp only [Doc.size] at *; omega)
+    | (rename_i ih; exact step_le ih (size_pick _ _ _ _))
+    | (rename_i ih; exact step_le ih (size_alignAt _ _))
+    | (rename_i ih; exact step_le ih (Nat.lt_of_le_of_lt (Cfg.size_evC _ _ _ _) (by simp only [Doc.size]; omega)))
 
 /-- the same for the smart lookahead: however many lines it looks ahead, every iteration consumes stack -/
 theorem fits_smart_linear (cfg : Cfg) (mn mw left : Int) (stk : List Triple) :
     (fitsSmartC cfg mn mw left stk).2 ≤ stkSize stk + 1 := by
   fun_induction fitsSmartC cfg mn mw left stk
-  all_goals simp_all only [stkSize, Item.size, Doc.size, stkSize_pushAll]
+  all_goals simp_all only [stkSize, Item.size, stkSize_pushAll]
   all_goals first
     | omega
-    | (have := Doc.sizes_le_sizesF ‹List Doc›; omega)
-    | (rename_i ih; refine Nat.le_trans (Nat.succ_le_succ ih) ?_
-       refine Nat.le_trans (Nat.succ_le_succ (Nat.add_le_add_right (Nat.add_le_add_right (size_pick _ _ _ _) _) _)) ?_; omega)
-    | (rename_i ih; refine Nat.le_trans (Nat.succ_le_succ ih) ?_
-       refine Nat.le_trans (Nat.succ_le_succ (Nat.add_le_add_right (Nat.add_le_add_right (size_alignAt _ _) _) _)) ?_; omega)
-    | (rename_i ih; refine Nat.le_trans (Nat.succ_le_succ ih) ?_
-       refine Nat.le_trans (Nat.succ_le_succ (Nat.add_le_add_right (Nat.add_le_add_right (Cfg.size_evC _ _ _ _) _) _)) ?_; omega)
+    | (simp only [Doc.size] at *; omega)
+    | (have := Doc.sizes_le_sizesF ‹List Doc›; simp only [Doc.size] at *; omega)
+    | (rename_i ih; exact step_le ih (size_pick _ _ _ _))
+    | (rename_i ih; exact step_le ih (size_alignAt _ _))
+    | (rename_i ih; exact step_le ih (Nat.lt_of_le_of_lt (Cfg.size_evC _ _ _ _) (by simp only [Doc.size]; omega)))
 
 theorem fitsSmartC_fst (cfg : Cfg) (mn mw left : Int) (stk : List Triple) :
     (fitsSmartC cfg mn mw left stk).1 = fitsSmart cfg mn mw left stk := by
@@ -57,13 +53,13 @@ theorem machine_quadratic (cfg : Cfg) (stk : List Triple) (col : Int) :
   fun_induction runW cfg stk col
   case case1 => simp [stkSize]
   all_goals (rename_i ih)
-  all_goals simp only [stkSize, Item.size, Doc.size, Doc.sizesF, stkSize_pushAll] at ih ⊢
+  all_goals simp only [stkSize, Item.size, stkSize_pushAll] at ih ⊢
   all_goals first
+    | exact quad_lt ih (size_pick _ _ _ _)
+    | exact quad_lt ih (size_alignAt _ _)
+    | exact quad_lt ih (Nat.lt_of_le_of_lt (Cfg.size_evC _ _ _ _) (by simp only [Doc.size]; omega))
     | (refine quad_step _ _ _ _ ?_ ?_ ih <;> omega)
-    | (rw [Nat.add_assoc]; refine quad_step _ _ _ _ ?_ ?_ ih <;> omega)
-    | (refine quad_step _ _ _ _ ?_ ?_ (Nat.le_trans ih (Nat.mul_le_mul (Nat.add_le_add_right (Nat.add_le_add_right (size_pick _ _ _ _) _) _) (Nat.add_le_add_right (Nat.add_le_add_right (size_pick _ _ _ _) _) _))) <;> omega)
-    | (refine quad_step _ _ _ _ ?_ ?_ (Nat.le_trans ih (Nat.mul_le_mul (Nat.add_le_add_right (Nat.add_le_add_right (size_alignAt _ _) _) _) (Nat.add_le_add_right (Nat.add_le_add_right (size_alignAt _ _) _) _))) <;> omega)
-    | (refine quad_step _ _ _ _ ?_ ?_ (Nat.le_trans ih (Nat.mul_le_mul (Nat.add_le_add_right (Nat.add_le_add_right (Cfg.size_evC _ _ _ _) _) _) (Nat.add_le_add_right (Nat.add_le_add_right (Cfg.size_evC _ _ _ _) _) _))) <;> omega)
+    | (simp only [Doc.size, Doc.sizesF] at ih ⊢; refine quad_step _ _ _ _ ?_ ?_ ih <;> omega)
 
 /-! ### printer invocations -/
 
